@@ -917,11 +917,17 @@ func globalInitNonNeg(c *core.Ctx, path string) bool {
 // computed in double precision and only widened afterwards (relative errors of 1e-16 instead of
 // 1e-30: dust conversions that return 0 or more than the curve allows).
 func checkFloatPrecision(c *core.Ctx, rule string) {
+	checkFloatPrecisionIn(c, rule, []string{"formula", "math"}, "formula and math", "far below the working precision of the curve evaluation", 60, nil)
+}
+
+// checkFloatPrecisionIn: no rounding big.Float operation in the given packages has a bare
+// big.NewFloat object (53 bits) as its receiver.
+func checkFloatPrecisionIn(c *core.Ctx, rule string, pkgs []string, where, consequence string, floor int, only func(*ssa.Function) bool) {
 	rounding := map[string]bool{"Add": true, "Sub": true, "Mul": true, "Quo": true, "Sqrt": true, "Set": true, "SetInt": true, "SetInt64": true, "SetUint64": true, "SetFloat64": true, "SetRat": true, "Neg": true, "Abs": true}
 	n, bad := 0, 0
-	for _, pk := range []string{"formula", "math"} {
+	for _, pk := range pkgs {
 		for _, fn := range c.SrcFuncs(pk) {
-			if fn.Blocks == nil {
+			if fn.Blocks == nil || legacyV1(fn) || only != nil && !only(fn) {
 				continue
 			}
 			k := 0
@@ -959,13 +965,13 @@ func checkFloatPrecision(c *core.Ctx, rule string) {
 				if from != "" {
 					bad++
 					k++
-					c.Bad(rule, fmt.Sprintf("%s/%s#%d", core.ShortFn(fn), s.Callee[len("(*math/big.Float)."):], k), s.Pos(), "the receiver of this operation is the 53-bit object made by big.NewFloat at "+from+" (no SetPrec in between): the result is rounded to double precision, far below the working precision of the curve evaluation")
+					c.Bad(rule, fmt.Sprintf("%s/%s#%d", core.ShortFn(fn), s.Callee[len("(*math/big.Float)."):], k), s.Pos(), "the receiver of this operation is the 53-bit object made by big.NewFloat at "+from+" (no SetPrec in between): the result is rounded to double precision, "+consequence)
 				}
 			}
 		}
 	}
 	if bad == 0 {
-		c.OK(rule, "receivers", token.NoPos, fmt.Sprintf("%d big.Float operations in formula and math: none has a bare big.NewFloat object as its receiver", n))
+		c.OK(rule, "receivers", token.NoPos, fmt.Sprintf("%d big.Float operations in %s: none has a bare big.NewFloat object as its receiver", n, where))
 	}
-	c.Floor(rule, n, 60, "big.Float arithmetic/assignment operations in formula and math")
+	c.Floor(rule, n, floor, "big.Float arithmetic/assignment operations in "+where)
 }
